@@ -12,7 +12,7 @@ EXPLANATION = (
     "cancelled before intervals are taken). R07-fingerprint-nonzero: CuckooFilter::fingerprint returns 1 + (h % M) with "
     "M = 2^l - 1 (u64::MAX when l = 64): in [1, 2^l - 1], never the free-slot marker, never wider than a slot. R07-divisor-nonzero: "
     "every % by the iterator's m is listed with its discharge."
-    " R07-double-hashing: iter_for reduces both base hashes (IV 0 and 1) modulo m, next() yields (h1 + i*h2 + f(i)) mod m, f has k entries modulo m. The cuckoo `accepts n inserts without Full` clause presupposes relocation to the alternate bucket: C01's kick-loop typestate rule is applied."
+    " R07-double-hashing: iter_for reduces both base hashes (IV 0 and 1) modulo m, next() yields (h1 + i*h2 + f(i)) mod m, f has k entries modulo m. The cuckoo `accepts n inserts without Full` clause presupposes relocation to the alternate bucket: C01's kick-loop typestate rule is applied. The quotient filter's bound presupposes a lookup confined to the run of its quotient and an exact q+r-bit split: C13's R13-scan / R13-split rules are applied."
 )
 NOT_DECIDED = "every frequency statement (false-positive rates, len() accuracy, cuckoo load without Full): distributions over hashers and keys"
 ASSUMPTIONS = ["real-number semantics for f64 (rounding ignored)", "`x as usize` truncates and saturates"]
@@ -113,6 +113,11 @@ def run(ctx):
     if ii is not None:
         from .C01 import kick_loop
         kick_loop(ctx, ii)
+    # the quotient filter's bound m * 2^-(q+r) counts fingerprint collisions only: a lookup must compare the remainder against the
+    # run of ITS quotient and nothing else, and the fingerprint must be split into exactly q + r bits (C13's scan / split rules)
+    from .C13 import scan_rules, split_rules
+    scan_rules(ctx)
+    split_rules(ctx)
     # ---- divisors ----------------------------------------------------------------------------------------
     n_div = 0
     for h in prog.fns.values():
